@@ -3,551 +3,59 @@
 // walkFS and the real newLayerWriter+writeTar+finalize (verif hooks), untars the
 // emitted layer with its OWN reader (compress/gzip + archive/tar) and prints
 // tree, walk headers and layer entries as Gallina terms for Corr/C06.v.
-// Digest / diff-id / size are recomputed from the bytes here (exploration).
+// Digest / diff-id / size are recomputed from the bytes (exploration).
+// The filesystem builder, read-back and tar reader live in package tarcase.
 package main
 
 import (
 	"archive/tar"
-	"bytes"
-	"compress/gzip"
 	"context"
-	"crypto/sha1" //nolint:gosec
-	"crypto/sha256"
-	"encoding/binary"
-	"encoding/hex"
-	"encoding/json"
 	"flag"
 	"fmt"
-	"io"
-	"io/fs"
 	"os"
-	"path/filepath"
-	"sort"
 	"strings"
-	"time"
 
-	"golang.org/x/sys/unix"
-
-	"chainguard.dev/apko/pkg/apk/apk"
-	apkfs "chainguard.dev/apko/pkg/apk/fs"
 	"chainguard.dev/apko/pkg/build"
-	"chainguard.dev/apko/pkg/tarfs"
 	"verifharness/gal"
+	"verifharness/tarcase"
 )
-
-// ---- description of a filesystem to build ---------------------------------
-
-type op struct {
-	Path    string            `json:"path"`
-	Kind    string            `json:"kind"` // dir reg sym chr link
-	Via     string            `json:"via"`  // api | hdr (tarfs WriteHeader)
-	Mode    uint32            `json:"mode"` // permission bits | 04000 | 02000 | 01000
-	UID     int               `json:"uid"`
-	GID     int               `json:"gid"`
-	Sec     int64             `json:"sec"`
-	Nsec    int64             `json:"nsec"`
-	NoTime  bool              `json:"notime,omitempty"`
-	Xattrs  map[string]string `json:"xattrs,omitempty"`
-	Size    int               `json:"size,omitempty"`
-	CSeed   int               `json:"cseed,omitempty"`
-	Target  string            `json:"target,omitempty"` // symlink target or hard-link target path
-	Maj     uint32            `json:"maj,omitempty"`
-	Min     uint32            `json:"min,omitempty"`
-	Pkg     string            `json:"pkg,omitempty"`
-	content []byte
-}
-
-type idname struct {
-	ID   int    `json:"id"`
-	Name string `json:"name"`
-}
-
-type fsCase struct {
-	Name    string   `json:"name"`
-	Backend string   `json:"backend"` // tarfs | memfs
-	Ops     []op     `json:"ops"`
-	Users   []idname `json:"users"`
-	Groups  []idname `json:"groups"`
-	Passwd  bool     `json:"passwd"` // write etc/passwd + etc/group
-}
-
-func genContent(seed, n int) []byte {
-	b := make([]byte, n)
-	x := uint32(seed*2654435761 + 12345)
-	for i := range b {
-		x = x*1664525 + 1013904223
-		b[i] = byte(x >> 24)
-	}
-	return b
-}
-
-func cidOf(b []byte) uint64 {
-	if len(b) == 0 {
-		return 0
-	}
-	h := sha256.Sum256(b)
-	return binary.BigEndian.Uint64(h[:8])>>8 + 1
-}
-
-func goMode(m uint32) fs.FileMode {
-	fm := fs.FileMode(m & 0o777)
-	if m&0o4000 != 0 {
-		fm |= fs.ModeSetuid
-	}
-	if m&0o2000 != 0 {
-		fm |= fs.ModeSetgid
-	}
-	if m&0o1000 != 0 {
-		fm |= fs.ModeSticky
-	}
-	return fm
-}
-
-func posixMode(fm fs.FileMode) uint32 {
-	m := uint32(fm.Perm())
-	if fm&fs.ModeSetuid != 0 {
-		m |= 0o4000
-	}
-	if fm&fs.ModeSetgid != 0 {
-		m |= 0o2000
-	}
-	if fm&fs.ModeSticky != 0 {
-		m |= 0o1000
-	}
-	return m
-}
-
-// content server for tarfs-backed entries
-type mapFS map[string][]byte
-
-type mapFile struct {
-	*bytes.Reader
-	name string
-	n    int
-}
-
-func (f *mapFile) Stat() (fs.FileInfo, error) { return nil, fs.ErrInvalid }
-func (f *mapFile) Close() error               { return nil }
-func (m mapFS) Open(name string) (fs.File, error) {
-	b, ok := m[name]
-	if !ok {
-		return nil, fs.ErrNotExist
-	}
-	return &mapFile{Reader: bytes.NewReader(b), name: name, n: len(b)}, nil
-}
-
-type headerWriter interface {
-	WriteHeader(hdr tar.Header, tfs fs.FS, pkg *apk.Package) (bool, error)
-}
-
-type built struct {
-	fsys  apkfs.FullFS
-	links map[string]string // link path -> target path (successful link ops)
-	hdrs  []string          // link paths recorded with a header
-	errs  []string
-}
-
-func tm(o op) time.Time { return time.Unix(o.Sec, o.Nsec).UTC() }
-
-// unixOf projects a time to (seconds, nanoseconds). Go's zero time.Time ("no
-// time was ever set on this node") is read as the Unix epoch, which is how
-// archive/tar writes it.
-func unixOf(t time.Time) (int64, int64) {
-	if t.IsZero() {
-		return 0, 0
-	}
-	return t.Unix(), int64(t.Nanosecond())
-}
-
-func buildFS(c *fsCase) *built {
-	var fsys apkfs.FullFS
-	if c.Backend == "memfs" {
-		fsys = apkfs.NewMemFS()
-	} else {
-		fsys = tarfs.New()
-	}
-	b := &built{fsys: fsys, links: map[string]string{}}
-	contents := mapFS{}
-	pkgs := map[string]*apk.Package{}
-	fail := func(o op, err error) {
-		if err != nil {
-			b.errs = append(b.errs, fmt.Sprintf("%s %s: %v", o.Kind, o.Path, err))
-		}
-	}
-	if c.Passwd {
-		_ = fsys.MkdirAll("etc", 0o755)
-		var pw, gr strings.Builder
-		for _, u := range c.Users {
-			fmt.Fprintf(&pw, "%s:x:%d:%d:%s:/home/%s:/bin/sh\n", u.Name, u.ID, u.ID, u.Name, u.Name)
-		}
-		for _, g := range c.Groups {
-			fmt.Fprintf(&gr, "%s:x:%d:\n", g.Name, g.ID)
-		}
-		_ = fsys.WriteFile("etc/passwd", []byte(pw.String()), 0o644)
-		_ = fsys.WriteFile("etc/group", []byte(gr.String()), 0o644)
-	}
-	for i := range c.Ops {
-		o := &c.Ops[i]
-		if o.Kind == "reg" && o.content == nil {
-			o.content = genContent(o.CSeed, o.Size)
-		}
-		pax := map[string]string{}
-		for k, v := range o.Xattrs {
-			pax["SCHILY.xattr."+k] = v
-		}
-		hw, isHW := fsys.(headerWriter)
-		viaHdr := o.Via == "hdr" && isHW
-		pkg := pkgs[o.Pkg]
-		if pkg == nil {
-			pkg = &apk.Package{Name: o.Pkg, Version: "1.0-r0", Origin: o.Pkg}
-			pkgs[o.Pkg] = pkg
-		}
-		meta := func() {
-			if o.UID != 0 || o.GID != 0 {
-				fail(*o, fsys.Chown(o.Path, o.UID, o.GID))
-			}
-			if !o.NoTime {
-				fail(*o, fsys.Chtimes(o.Path, tm(*o), tm(*o)))
-			}
-			for k, v := range o.Xattrs {
-				fail(*o, fsys.SetXattr(o.Path, k, []byte(v)))
-			}
-		}
-		switch o.Kind {
-		case "dir":
-			if viaHdr {
-				_, err := hw.WriteHeader(tar.Header{Typeflag: tar.TypeDir, Name: o.Path, Mode: int64(o.Mode), ModTime: tm(*o), PAXRecords: pax}, contents, pkg)
-				fail(*o, err)
-				if o.UID != 0 || o.GID != 0 {
-					fail(*o, fsys.Chown(o.Path, o.UID, o.GID))
-				}
-			} else {
-				fail(*o, fsys.Mkdir(o.Path, goMode(o.Mode)))
-				meta()
-			}
-		case "reg":
-			if viaHdr {
-				sum := sha1.Sum(o.content) //nolint:gosec
-				pax["APK-TOOLS.checksum.SHA1"] = hex.EncodeToString(sum[:])
-				contents[o.Path] = o.content
-				_, err := hw.WriteHeader(tar.Header{Typeflag: tar.TypeReg, Name: o.Path, Mode: int64(o.Mode), Size: int64(len(o.content)),
-					ModTime: tm(*o), Uid: o.UID, Gid: o.GID, PAXRecords: pax}, contents, pkg)
-				fail(*o, err)
-			} else {
-				fail(*o, fsys.WriteFile(o.Path, o.content, goMode(o.Mode)))
-				meta()
-			}
-		case "sym":
-			if viaHdr {
-				sum := sha1.Sum([]byte(o.Target)) //nolint:gosec
-				_, err := hw.WriteHeader(tar.Header{Typeflag: tar.TypeSymlink, Name: o.Path, Linkname: o.Target, Mode: 0o777, ModTime: tm(*o),
-					PAXRecords: map[string]string{"APK-TOOLS.checksum.SHA1": hex.EncodeToString(sum[:])}}, contents, pkg)
-				fail(*o, err)
-			} else {
-				fail(*o, fsys.Symlink(o.Target, o.Path))
-			}
-		case "chr":
-			fail(*o, fsys.Mknod(o.Path, o.Mode, int(unix.Mkdev(o.Maj, o.Min))))
-			meta()
-		case "link":
-			var err error
-			if viaHdr {
-				_, err = hw.WriteHeader(tar.Header{Typeflag: tar.TypeLink, Name: o.Path, Linkname: o.Target, Mode: int64(o.Mode), ModTime: tm(*o)}, contents, pkg)
-				if err == nil {
-					b.hdrs = append(b.hdrs, o.Path)
-				}
-			} else {
-				err = fsys.Link(o.Target, o.Path)
-			}
-			fail(*o, err)
-			if err == nil {
-				b.links[o.Path] = o.Target
-			}
-		}
-	}
-	return b
-}
-
-// ---- reading the state back through the interface ---------------------------
-
-type rnode struct {
-	name     string
-	kind     string
-	mode     uint32
-	uid, gid int
-	sec      int64
-	nsec     int64
-	xattrs   [][2]string
-	cid      uint64
-	size     int
-	target   string
-	maj, min uint32
-	children []*rnode
-	hard     string
-}
-
-func sortedX(m map[string][]byte) [][2]string {
-	var out [][2]string
-	for k, v := range m {
-		out = append(out, [2]string{k, string(v)})
-	}
-	sort.Slice(out, func(i, j int) bool { return out[i][0] < out[j][0] })
-	return out
-}
-
-func readBack(fsys apkfs.FullFS, dir string, links map[string]string) ([]*rnode, error) {
-	des, err := fsys.ReadDir(dir)
-	if err != nil {
-		return nil, err
-	}
-	var out []*rnode
-	for _, de := range des {
-		p := de.Name()
-		if dir != "." {
-			p = dir + "/" + de.Name()
-		}
-		info, err := de.Info()
-		if err != nil {
-			return nil, err
-		}
-		n := &rnode{name: de.Name(), mode: posixMode(info.Mode())}
-		n.sec, n.nsec = unixOf(info.ModTime())
-		if th, ok := info.Sys().(*tar.Header); ok {
-			n.uid, n.gid = th.Uid, th.Gid
-		}
-		fm := info.Mode()
-		switch {
-		case fm&fs.ModeSymlink != 0:
-			n.kind = "sym"
-			if n.target, err = fsys.Readlink(p); err != nil {
-				return nil, err
-			}
-		case info.IsDir():
-			n.kind = "dir"
-			if n.children, err = readBack(fsys, p, links); err != nil {
-				return nil, err
-			}
-		case fm&fs.ModeCharDevice != 0:
-			n.kind = "chr"
-			dev, err := fsys.Readnod(p)
-			if err != nil {
-				return nil, err
-			}
-			n.maj, n.min = unix.Major(uint64(dev)), unix.Minor(uint64(dev))
-		case fm.IsRegular():
-			n.kind = "reg"
-			data, err := fsys.ReadFile(p)
-			if err != nil {
-				return nil, err
-			}
-			n.cid, n.size = cidOf(data), len(data)
-		default:
-			return nil, fmt.Errorf("unexpected mode %v at %s", fm, p)
-		}
-		if n.kind != "sym" {
-			if xa, err := fsys.ListXattrs(p); err == nil {
-				n.xattrs = sortedX(xa)
-			}
-		}
-		n.hard = links[p]
-		out = append(out, n)
-	}
-	return out, nil
-}
-
-// ---- Gallina printing ----------------------------------------------------------
-
-func pathTerm(p string) string {
-	var cs []string
-	for _, c := range strings.Split(p, "/") {
-		if c != "" && c != "." {
-			cs = append(cs, c)
-		}
-	}
-	return gal.StrList(cs)
-}
-
-func xaTerm(x [][2]string) string {
-	items := make([]string, len(x))
-	for i, kv := range x {
-		items[i] = gal.Pair(gal.Str(kv[0]), gal.Str(kv[1]))
-	}
-	return gal.List(items)
-}
-
-func treeTerm(ns []*rnode) string {
-	items := make([]string, len(ns))
-	for i, n := range ns {
-		m := fmt.Sprintf("(mkm %s %s %s %s %s %s)", gal.N(uint64(n.mode)), gal.Z(int64(n.uid)), gal.Z(int64(n.gid)), gal.Z(n.sec), gal.N(uint64(n.nsec)), xaTerm(n.xattrs))
-		var t string
-		hard := gal.Opt(n.hard != "", pathTerm(n.hard))
-		switch n.kind {
-		case "dir":
-			t = fmt.Sprintf("(Dir %s %s)", m, treeTerm(n.children))
-		case "reg":
-			t = fmt.Sprintf("(File %s (LReg %s %s) %s)", m, gal.N(n.cid), gal.N(uint64(n.size)), hard)
-		case "sym":
-			t = fmt.Sprintf("(File %s (LSym %s) %s)", m, gal.Str(n.target), hard)
-		case "chr":
-			t = fmt.Sprintf("(File %s (LChr %s %s) %s)", m, gal.N(uint64(n.maj)), gal.N(uint64(n.min)), hard)
-		}
-		items[i] = gal.Pair(gal.Str(n.name), t)
-	}
-	return gal.List(items)
-}
-
-type ent struct {
-	path      string
-	kind      string
-	mode      int64
-	uid, gid  int
-	un, gn    string
-	link      string
-	maj, min  int64
-	xattrs    [][2]string
-	sec, nsec int64
-	cid       uint64
-	size      int64
-	otherPAX  []string
-}
-
-func kindOf(tf byte) string {
-	switch tf {
-	case tar.TypeReg, 0:
-		return "KReg"
-	case tar.TypeDir:
-		return "KDir"
-	case tar.TypeSymlink:
-		return "KSym"
-	case tar.TypeChar:
-		return "KChr"
-	case tar.TypeLink:
-		return "KLink"
-	}
-	return ""
-}
-
-func entOfHeader(h *tar.Header) (ent, bool) {
-	e := ent{path: h.Name, kind: kindOf(h.Typeflag), mode: h.Mode & 0o7777, uid: h.Uid, gid: h.Gid, un: h.Uname, gn: h.Gname,
-		link: h.Linkname, maj: h.Devmajor, min: h.Devminor, size: h.Size}
-	e.sec, e.nsec = unixOf(h.ModTime)
-	var keys []string
-	for k := range h.PAXRecords {
-		keys = append(keys, k)
-	}
-	sort.Strings(keys)
-	for _, k := range keys {
-		if strings.HasPrefix(k, "SCHILY.xattr.") {
-			e.xattrs = append(e.xattrs, [2]string{strings.TrimPrefix(k, "SCHILY.xattr."), h.PAXRecords[k]})
-		} else {
-			e.otherPAX = append(e.otherPAX, k)
-		}
-	}
-	return e, e.kind != ""
-}
-
-func entTerm(e ent) string {
-	return fmt.Sprintf("(mke %s %s %s %s %s %s %s %s %s %s %s %s %s %s %s)", pathTerm(e.path), e.kind, gal.N(uint64(e.mode)),
-		gal.Z(int64(e.uid)), gal.Z(int64(e.gid)), gal.Opt(e.un != "", gal.Str(e.un)), gal.Opt(e.gn != "", gal.Str(e.gn)), gal.Str(e.link),
-		gal.N(uint64(e.maj)), gal.N(uint64(e.min)), xaTerm(e.xattrs), gal.Z(e.sec), gal.N(uint64(e.nsec)), gal.N(e.cid), gal.N(uint64(e.size)))
-}
-
-func entsTerm(es []ent) string {
-	items := make([]string, len(es))
-	for i, e := range es {
-		items[i] = entTerm(e)
-	}
-	return gal.List(items)
-}
-
-func idTerm(xs []idname) string {
-	items := make([]string, len(xs))
-	for i, x := range xs {
-		items[i] = gal.Pair(gal.Z(int64(x.ID)), gal.Str(x.Name))
-	}
-	return gal.List(items)
-}
-
-func implViolation(tag string, v any) {
-	b, _ := json.Marshal(v)
-	fmt.Printf("IMPL-VIOLATION tag=%s %s\n", tag, b)
-}
-
-// untar reads a tar stream with the standard library reader, independently of apko.
-func untar(r io.Reader) ([]ent, error) {
-	tr := tar.NewReader(r)
-	var out []ent
-	for {
-		h, err := tr.Next()
-		if err == io.EOF {
-			return out, nil
-		}
-		if err != nil {
-			return out, err
-		}
-		e, ok := entOfHeader(h)
-		if !ok {
-			return out, fmt.Errorf("unexpected typeflag %q at %s", h.Typeflag, h.Name)
-		}
-		data, err := io.ReadAll(tr)
-		if err != nil {
-			return out, err
-		}
-		if int64(len(data)) != h.Size && e.kind == "KReg" {
-			return out, fmt.Errorf("short content at %s", h.Name)
-		}
-		e.cid = cidOf(data)
-		out = append(out, e)
-	}
-}
 
 type stats struct {
 	layers, bytes int
 }
 
 // runCase builds, observes, and returns the case term.
-func runCase(c *fsCase, tmp string, st *stats) (term string, ok bool) {
+func runCase(c *tarcase.FSCase, tmp string, st *stats) (term string, ok bool) {
 	defer func() {
 		if r := recover(); r != nil {
-			implViolation("panic", map[string]any{"case": c, "panic": fmt.Sprint(r)})
+			tarcase.ImplViolation("panic", map[string]any{"case": c, "panic": fmt.Sprint(r)})
 			ok = false
 		}
 	}()
-	b := buildFS(c)
-	if len(b.errs) > 0 {
-		fmt.Fprintf(os.Stderr, "c06: case %s: build errors (generator bug): %v\n", c.Name, b.errs)
+	b := tarcase.BuildFS(c)
+	if len(b.Errs) > 0 {
+		fmt.Fprintf(os.Stderr, "c06: case %s: build errors (generator bug): %v\n", c.Name, b.Errs)
 		os.Exit(3)
 	}
-	tree, err := readBack(b.fsys, ".", b.links)
+	tree, err := tarcase.ReadBack(b.FS, ".", b.Links)
 	if err != nil {
 		fmt.Fprintf(os.Stderr, "c06: case %s: read-back failed: %v\n", c.Name, err)
 		os.Exit(3)
 	}
 	ctx := context.Background()
-	files, err := build.VerifC06WalkFS(ctx, b.fsys)
+	files, err := build.VerifC06WalkFS(ctx, b.FS)
 	if err != nil {
-		implViolation("serialise-error", map[string]any{"case": c, "where": "walkFS", "err": err.Error()})
+		tarcase.ImplViolation("serialise-error", map[string]any{"case": c, "where": "walkFS", "err": err.Error()})
 		return "", false
 	}
-	var wents []ent
+	var paths []string
+	var hdrs []*tar.Header
 	for _, f := range files {
-		e, okk := entOfHeader(f.Header)
-		if !okk {
-			implViolation("unexpected-typeflag", map[string]any{"case": c, "path": f.Path})
-			return "", false
-		}
-		if len(e.otherPAX) > 0 {
-			implViolation("unexpected-pax-record", map[string]any{"case": c, "path": f.Path, "keys": e.otherPAX})
-		}
-		if e.kind == "KReg" && f.Header.Size > 0 {
-			data, err := b.fsys.ReadFile(f.Path)
-			if err != nil {
-				implViolation("serialise-error", map[string]any{"case": c, "where": "open", "err": err.Error()})
-				return "", false
-			}
-			e.cid = cidOf(data)
-		}
-		wents = append(wents, e)
+		paths, hdrs = append(paths, f.Path), append(hdrs, f.Header)
+	}
+	wents, okk := tarcase.WalkEnts(b.FS, paths, hdrs, c)
+	if !okk {
+		return "", false
 	}
 	out, err := os.CreateTemp(tmp, "layer-*.tar.gz")
 	if err != nil {
@@ -555,63 +63,27 @@ func runCase(c *fsCase, tmp string, st *stats) (term string, ok bool) {
 	}
 	defer os.Remove(out.Name())
 	defer out.Close()
-	layer, err := build.VerifC06WriteLayer(ctx, out, b.fsys)
+	layer, err := build.VerifC06WriteLayer(ctx, out, b.FS)
 	if err != nil {
-		implViolation("serialise-error", map[string]any{"case": c, "where": "writeTar", "err": err.Error()})
+		tarcase.ImplViolation("serialise-error", map[string]any{"case": c, "where": "writeTar", "err": err.Error()})
 		return "", false
 	}
-	raw, err := os.ReadFile(out.Name())
-	if err != nil {
-		panic(err)
-	}
-	zr, err := gzip.NewReader(bytes.NewReader(raw))
-	if err != nil {
-		implViolation("layer-not-gzip", map[string]any{"case": c, "err": err.Error()})
+	tents, n, okk := tarcase.ReadLayer(layer, out.Name(), c)
+	if !okk {
 		return "", false
-	}
-	plain, err := io.ReadAll(zr)
-	if err != nil {
-		implViolation("layer-not-gzip", map[string]any{"case": c, "err": err.Error()})
-		return "", false
-	}
-	// byte-level part (exploration): advertised digest / diff-id / size
-	dg, _ := layer.Digest()
-	di, _ := layer.DiffID()
-	sz, _ := layer.Size()
-	h1, h2 := sha256.Sum256(raw), sha256.Sum256(plain)
-	if dg.Algorithm != "sha256" || dg.Hex != hex.EncodeToString(h1[:]) {
-		implViolation("digest-mismatch", map[string]any{"case": c, "advertised": dg.String(), "actual": hex.EncodeToString(h1[:])})
-	}
-	if di.Algorithm != "sha256" || di.Hex != hex.EncodeToString(h2[:]) {
-		implViolation("diffid-mismatch", map[string]any{"case": c, "advertised": di.String(), "actual": hex.EncodeToString(h2[:])})
-	}
-	if sz != int64(len(raw)) {
-		implViolation("size-mismatch", map[string]any{"case": c, "advertised": sz, "actual": len(raw)})
-	}
-	if rc, err := layer.Compressed(); err == nil {
-		again, _ := io.ReadAll(rc)
-		rc.Close()
-		if !bytes.Equal(again, raw) {
-			implViolation("compressed-differs-from-file", map[string]any{"case": c})
-		}
 	}
 	st.layers++
-	st.bytes += len(plain)
-	tents, err := untar(bytes.NewReader(plain))
-	if err != nil {
-		implViolation("layer-unreadable", map[string]any{"case": c, "err": err.Error()})
-		return "", false
-	}
+	st.bytes += n
 	var hl []string
-	for _, p := range b.hdrs {
-		hl = append(hl, pathTerm(p))
+	for _, p := range b.Hdrs {
+		hl = append(hl, tarcase.PathTerm(p))
 	}
-	var us, gs []idname
+	var us, gs []tarcase.IDName
 	if c.Passwd {
 		us, gs = c.Users, c.Groups
 	}
 	term = fmt.Sprintf("{| c_tree := %s;\n     c_hl := %s; c_users := %s; c_groups := %s;\n     o_walk := %s;\n     o_tar := %s |}",
-		treeTerm(tree), gal.List(hl), idTerm(us), idTerm(gs), entsTerm(wents), entsTerm(tents))
+		tarcase.TreeTerm(tree), gal.List(hl), tarcase.IDTerm(us), tarcase.IDTerm(gs), tarcase.EntsTerm(wents), tarcase.EntsTerm(tents))
 	return term, true
 }
 
@@ -619,22 +91,24 @@ func runCase(c *fsCase, tmp string, st *stats) (term string, ok bool) {
 
 const t0 = 1700000000
 
-func d(p string, mode uint32) op { return op{Path: p, Kind: "dir", Via: "api", Mode: mode, Sec: t0} }
-func f(p string, mode uint32, size int) op {
-	return op{Path: p, Kind: "reg", Via: "api", Mode: mode, Sec: t0 + 1, Size: size, CSeed: len(p) + size}
+func d(p string, mode uint32) tarcase.Op {
+	return tarcase.Op{Path: p, Kind: "dir", Via: "api", Mode: mode, Sec: t0}
+}
+func f(p string, mode uint32, size int) tarcase.Op {
+	return tarcase.Op{Path: p, Kind: "reg", Via: "api", Mode: mode, Sec: t0 + 1, Size: size, CSeed: len(p) + size}
 }
 
-var stdUsers = []idname{{0, "root"}, {1000, "build"}, {65532, "nonroot"}}
-var stdGroups = []idname{{0, "root"}, {1000, "build"}, {65532, "nonroot"}, {42, "shadow"}}
+var stdUsers = []tarcase.IDName{{0, "root"}, {1000, "build"}, {65532, "nonroot"}}
+var stdGroups = []tarcase.IDName{{0, "root"}, {1000, "build"}, {65532, "nonroot"}, {42, "shadow"}}
 
-func corpus() []fsCase {
+func corpus() []tarcase.FSCase {
 	long := strings.Repeat("n", 120)
-	var cs []fsCase
+	var cs []tarcase.FSCase
 	for _, be := range []string{"tarfs", "memfs"} {
 		cs = append(cs,
-			fsCase{Name: "empty", Backend: be},
-			fsCase{Name: "one-empty-file", Backend: be, Ops: []op{f("empty", 0o644, 0)}},
-			fsCase{Name: "kitchen-sink", Backend: be, Passwd: true, Users: stdUsers, Groups: stdGroups, Ops: []op{
+			tarcase.FSCase{Name: "empty", Backend: be},
+			tarcase.FSCase{Name: "one-empty-file", Backend: be, Ops: []tarcase.Op{f("empty", 0o644, 0)}},
+			tarcase.FSCase{Name: "kitchen-sink", Backend: be, Passwd: true, Users: stdUsers, Groups: stdGroups, Ops: []tarcase.Op{
 				d("usr", 0o755), d("usr/bin", 0o755), {Path: "usr/bin/su", Kind: "reg", Via: "api", Mode: 0o4755, Sec: t0, Size: 10, CSeed: 1},
 				{Path: "usr/bin/wall", Kind: "reg", Via: "api", Mode: 0o2755, GID: 42, Sec: t0, Size: 3, CSeed: 2},
 				{Path: "tmp", Kind: "dir", Via: "api", Mode: 0o1777, Sec: t0}, d("home", 0o755),
@@ -647,26 +121,26 @@ func corpus() []fsCase {
 				d("dev", 0o755), {Path: "dev/null", Kind: "chr", Via: "api", Mode: 0o666, Sec: t0, Maj: 1, Min: 3},
 				{Path: "dev/big", Kind: "chr", Via: "api", Mode: 0o600, Sec: t0, Maj: 254, Min: 4099},
 			}},
-			fsCase{Name: "names", Backend: be, Ops: []op{
+			tarcase.FSCase{Name: "names", Backend: be, Ops: []tarcase.Op{
 				d("a", 0o755), f("a/b", 0o644, 1), f("a-b", 0o644, 1), f("a.b", 0o644, 1), f("A", 0o644, 1), f("b", 0o644, 1), f("a0", 0o644, 1),
 				d(long, 0o755), d(long+"/"+long, 0o755), f(long+"/"+long+"/"+long, 0o644, 2),
 				f("caf\xc3\xa9 \xe2\x98\x95", 0o644, 2), f("sp ace", 0o644, 0), f("\xff\xfe", 0o644, 1), d("a/z", 0o755), f("a/z/q", 0o600, 3), f("a/zz", 0o600, 3),
 			}},
-			fsCase{Name: "dup-uids", Backend: be, Passwd: true, Users: []idname{{0, "root"}, {0, "toor"}, {7, "x"}}, Groups: []idname{{0, "wheel"}, {0, "root"}},
-				Ops: []op{f("r", 0o644, 1), {Path: "s", Kind: "reg", Via: "api", Mode: 0o644, UID: 7, GID: 7, Sec: t0, Size: 1}}},
-			fsCase{Name: "multi-megabyte", Backend: be, Ops: []op{f("big", 0o644, 3<<20+17), f("block", 0o644, 512), f("block2", 0o644, 1024)}},
+			tarcase.FSCase{Name: "dup-uids", Backend: be, Passwd: true, Users: []tarcase.IDName{{0, "root"}, {0, "toor"}, {7, "x"}}, Groups: []tarcase.IDName{{0, "wheel"}, {0, "root"}},
+				Ops: []tarcase.Op{f("r", 0o644, 1), {Path: "s", Kind: "reg", Via: "api", Mode: 0o644, UID: 7, GID: 7, Sec: t0, Size: 1}}},
+			tarcase.FSCase{Name: "multi-megabyte", Backend: be, Ops: []tarcase.Op{f("big", 0o644, 3<<20+17), f("block", 0o644, 512), f("block2", 0o644, 1024)}},
 			// known finding C06-F1: a hard link made without a tar header
-			fsCase{Name: "F1-headerless-hardlink", Backend: be, Ops: []op{d("bin", 0o755), f("bin/a", 0o755, 5), {Path: "bin/b", Kind: "link", Via: "api", Target: "bin/a"}}},
+			tarcase.FSCase{Name: "F1-headerless-hardlink", Backend: be, Ops: []tarcase.Op{d("bin", 0o755), f("bin/a", 0o755, 5), {Path: "bin/b", Kind: "link", Via: "api", Target: "bin/a"}}},
 			// known finding C06-F3: sub-second mtime
-			fsCase{Name: "F3-subsecond-mtime", Backend: be, Ops: []op{{Path: "f", Kind: "reg", Via: "api", Mode: 0o644, Sec: t0, Nsec: 500000000, Size: 1},
+			tarcase.FSCase{Name: "F3-subsecond-mtime", Backend: be, Ops: []tarcase.Op{{Path: "f", Kind: "reg", Via: "api", Mode: 0o644, Sec: t0, Nsec: 500000000, Size: 1},
 				{Path: "g", Kind: "reg", Via: "api", Mode: 0o644, Sec: t0, Nsec: 499999999, Size: 1}}},
 			// known finding C06-F4: xattr on a character device
-			fsCase{Name: "F4-chardev-xattr", Backend: be, Ops: []op{{Path: "null", Kind: "chr", Via: "api", Mode: 0o666, Sec: t0, Maj: 1, Min: 3, Xattrs: map[string]string{"security.selinux": "u:r"}}}},
-			fsCase{Name: "zero-time", Backend: be, Ops: []op{{Path: "d", Kind: "dir", Via: "api", Mode: 0o755, NoTime: true}, {Path: "d/f", Kind: "reg", Via: "api", Mode: 0o644, NoTime: true, Size: 2}}},
+			tarcase.FSCase{Name: "F4-chardev-xattr", Backend: be, Ops: []tarcase.Op{{Path: "null", Kind: "chr", Via: "api", Mode: 0o666, Sec: t0, Maj: 1, Min: 3, Xattrs: map[string]string{"security.selinux": "u:r"}}}},
+			tarcase.FSCase{Name: "zero-time", Backend: be, Ops: []tarcase.Op{{Path: "d", Kind: "dir", Via: "api", Mode: 0o755, NoTime: true}, {Path: "d/f", Kind: "reg", Via: "api", Mode: 0o644, NoTime: true, Size: 2}}},
 		)
 	}
 	cs = append(cs,
-		fsCase{Name: "pkg-files", Backend: "tarfs", Ops: []op{
+		tarcase.FSCase{Name: "pkg-files", Backend: "tarfs", Ops: []tarcase.Op{
 			{Path: "usr", Kind: "dir", Via: "hdr", Mode: 0o755, Sec: t0, Pkg: "base"},
 			{Path: "usr/lib", Kind: "dir", Via: "hdr", Mode: 0o1755, Sec: t0 + 2, Pkg: "base", Xattrs: map[string]string{"user.d": "1"}},
 			{Path: "usr/lib/libc.so", Kind: "reg", Via: "hdr", Mode: 0o4755, Sec: t0 + 3, Size: 70000, CSeed: 9, Pkg: "libc", UID: 5, GID: 6, Xattrs: map[string]string{"user.k": "v"}},
@@ -675,7 +149,7 @@ func corpus() []fsCase {
 			{Path: "usr/lib/libc.so.hard", Kind: "link", Via: "hdr", Target: "usr/lib/libc.so", Sec: t0 + 4, Pkg: "libc"},
 		}},
 		// candidate finding C06-F2: a recorded hard link that sorts before its target
-		fsCase{Name: "F2-link-before-target", Backend: "tarfs", Ops: []op{d("bin", 0o755),
+		tarcase.FSCase{Name: "F2-link-before-target", Backend: "tarfs", Ops: []tarcase.Op{d("bin", 0o755),
 			{Path: "bin/z", Kind: "reg", Via: "hdr", Mode: 0o755, Sec: t0, Size: 5, CSeed: 7, Pkg: "p"},
 			{Path: "bin/a", Kind: "link", Via: "hdr", Target: "bin/z", Sec: t0, Pkg: "p"}}},
 	)
@@ -686,18 +160,8 @@ func corpus() []fsCase {
 
 var namePool = []string{"a", "b", "bin", "etc", "lib", "usr", "x-y", "x.y", "x", "X", "0", "z", "lib64", "a b", "\xc3\xa9t\xc3\xa9", "_", "~", "zz", "libfoo.so.1", "-"}
 
-func walkLess(a, b string) bool {
-	x, y := strings.Split(a, "/"), strings.Split(b, "/")
-	for i := 0; i < len(x) && i < len(y); i++ {
-		if x[i] != y[i] {
-			return x[i] < y[i]
-		}
-	}
-	return len(x) < len(y)
-}
-
-func genCase(r *gal.Rand, i int, tier string) fsCase {
-	c := fsCase{Name: fmt.Sprintf("gen-%d", i), Backend: "tarfs"}
+func genCase(r *gal.Rand, i int, tier string) tarcase.FSCase {
+	c := tarcase.FSCase{Name: fmt.Sprintf("gen-%d", i), Backend: "tarfs"}
 	if r.Chance(1, 3) {
 		c.Backend = "memfs"
 	}
@@ -708,12 +172,12 @@ func genCase(r *gal.Rand, i int, tier string) fsCase {
 		n := 1 + r.Intn(5)
 		for k := 0; k < n; k++ {
 			j := r.Intn(len(ids))
-			c.Users = append(c.Users, idname{ids[j], names[r.Intn(len(names))]})
+			c.Users = append(c.Users, tarcase.IDName{ids[j], names[r.Intn(len(names))]})
 		}
 		n = 1 + r.Intn(5)
 		for k := 0; k < n; k++ {
 			j := r.Intn(len(ids))
-			c.Groups = append(c.Groups, idname{ids[j], names[r.Intn(len(names))]})
+			c.Groups = append(c.Groups, tarcase.IDName{ids[j], names[r.Intn(len(names))]})
 		}
 	}
 	idPool := []int{0, 0, 0, 1000, 65532, 7, 12345}
@@ -744,7 +208,7 @@ func genCase(r *gal.Rand, i int, tier string) fsCase {
 			continue
 		}
 		used[p] = true
-		o := op{Path: p, Via: "api", Sec: int64(t0 + r.Intn(100000)), UID: gal.Pick(r, idPool), GID: gal.Pick(r, idPool), Pkg: gal.Pick(r, []string{"p1", "p2", "p3"})}
+		o := tarcase.Op{Path: p, Via: "api", Sec: int64(t0 + r.Intn(100000)), UID: gal.Pick(r, idPool), GID: gal.Pick(r, idPool), Pkg: gal.Pick(r, []string{"p1", "p2", "p3"})}
 		if r.Chance(1, 4) {
 			o.Sec = int64(r.Intn(2000000000))
 		}
@@ -785,7 +249,7 @@ func genCase(r *gal.Rand, i int, tier string) fsCase {
 				continue
 			}
 			o.Kind, o.Target, o.Xattrs, o.UID, o.GID = "link", gal.Pick(r, regs), nil, 0, 0
-			inEnvelope := c.Backend == "tarfs" && walkLess(o.Target, p)
+			inEnvelope := c.Backend == "tarfs" && tarcase.WalkLess(o.Target, p)
 			if inEnvelope && !r.Chance(1, 10) {
 				o.Via = "hdr"
 			} else if !r.Chance(1, 4) { // mostly stay inside the envelope; the rest replays C06-F1 / C06-F2
@@ -805,7 +269,7 @@ func genCase(r *gal.Rand, i int, tier string) fsCase {
 	return c
 }
 
-func classOf(c *fsCase) (string, bool) {
+func classOf(c *tarcase.FSCase) (string, bool) {
 	kinds := map[string]bool{}
 	for _, o := range c.Ops {
 		kinds[o.Kind] = true
@@ -837,14 +301,14 @@ func main() {
 	defer os.RemoveAll(tmp)
 	w := &gal.Writer{Dir: *out, Require: "From Apko Require Import Corr.C06.", Type: "c06_case", Check: "check_c06", Shard: 40}
 	st := &stats{}
-	add := func(c fsCase, class string) {
+	add := func(c tarcase.FSCase, class string) {
 		term, ok := runCase(&c, tmp, st)
 		if !ok {
 			return
 		}
 		cl, triv := classOf(&c)
 		for i := range c.Ops {
-			c.Ops[i].content = nil
+			c.Ops[i].Content = nil
 		}
 		w.Add(gal.Case{Term: term, Desc: c, Class: class + ":" + cl, Trivial: triv})
 	}
@@ -865,5 +329,4 @@ func main() {
 		os.Exit(1)
 	}
 	fmt.Printf("STAT {\"layers_untarred\": %d, \"tar_bytes\": %d}\n", st.layers, st.bytes)
-	_ = filepath.Join
 }
